@@ -91,6 +91,7 @@ fn verif_read_source_file(path: &Xstr) -> Xresult1<String> { unimplemented!() }
 //@use compile.fns ::core_word_nil
 //@use compile.fns ::core_word_def_begin_named
 //@use compile.fns ::core_word_nested_begin
+//@use compile.fns ::core_word_nested_end
 //@use compile.fns ::core_word_def_end
 
 // Rext: Xerr::control_flow_error(flow) formats the open construct into a message: some Err
@@ -110,6 +111,8 @@ impl core::ops::Deref for Xsubstr { type Target = str; #[verifier::external_body
 impl Xstr { #[verifier::external_body] pub fn as_str(&self) -> (r: &str) ensures name_text(r) == xstr_text(*self) { unimplemented!() } }
 impl Xerr {
     #[verifier::external_body] pub fn conditional_var_definition() -> Xerr { unimplemented!() }
+    // formats the open construct into a message: some Err
+    #[verifier::external_body] pub fn control_flow_error(flow: Option<&Flow>) -> (r: Xresult) ensures r is Err { unimplemented!() }
     #[verifier::external_body] pub fn unbalanced_fn_builder() -> Xerr { unimplemented!() }
 }
 
